@@ -174,15 +174,23 @@ func runEncCall(e *verifapi.CborEncoder, c *encCall) error {
 		return e.EncodeBool(c.V)
 	case "map":
 		var mes []*verifapi.CborMapEntryEncoder
-		for _, en := range c.Es {
+		for ei, en := range c.Es {
 			kb, vb := unints(en.K), unints(en.V)
 			var ferr error
+			valueFirst := (ei+len(c.Es))%3 == 1 // the entry callback may fill the value before the key: the two encoders are independent
 			mes = append(mes, verifapi.GenerateCborMapEntry(func(k, v *verifapi.CborEncoder) {
+				if valueFirst {
+					if err := replayBytes(v, vb); err != nil {
+						ferr = err
+					}
+				}
 				if err := replayBytes(k, kb); err != nil {
 					ferr = err
 				}
-				if err := replayBytes(v, vb); err != nil {
-					ferr = err
+				if !valueFirst {
+					if err := replayBytes(v, vb); err != nil {
+						ferr = err
+					}
 				}
 			}))
 			if ferr != nil {
